@@ -1,1 +1,57 @@
-fn main(){}
+//! `lua` stand-in: `lua < chunk`, `lua -`, `lua file.lua`.
+use std::io::{Read, Write};
+
+fn main() {
+    let args: Vec<String> = std::env::args().collect();
+    let mut src = Vec::new();
+    let file = args.iter().skip(1).find(|a| !a.starts_with('-') || a.as_str() == "-");
+    match file {
+        Some(f) if f != "-" => match std::fs::read(f) {
+            Ok(b) => src = b,
+            Err(e) => {
+                eprintln!("lua: cannot open {}: {}", f, e);
+                std::process::exit(1);
+            }
+        },
+        _ => {
+            let _ = std::io::stdin().read_to_end(&mut src);
+        }
+    }
+    // luaL_loadfile skips a first line starting with '#'
+    if src.first() == Some(&b'#') {
+        let end = src.iter().position(|&b| b == b'\n').unwrap_or(src.len());
+        for b in src[..end].iter_mut() {
+            *b = b' ';
+        }
+    }
+    let code = minilua::with_big_stack(move || {
+        let chunk = match minilua::load(&src) {
+            Ok(c) => c,
+            Err(e) => {
+                eprintln!("lua: {}\nstack traceback:\n\t[C]: in ?", e.msg);
+                return 1;
+            }
+        };
+        let limits = minilua::Limits {
+            max_steps: 200_000_000,
+            max_call_depth: 190,
+            max_heap_objects: 20_000_000,
+            max_string_bytes: 512 << 20,
+        };
+        let r = minilua::run(&chunk, &limits);
+        let _ = std::io::stdout().write_all(&r.stdout);
+        let _ = std::io::stdout().flush();
+        match r.outcome {
+            minilua::RunOutcome::Ok => 0,
+            minilua::RunOutcome::Error { msg } => {
+                eprintln!("lua: {}\nstack traceback:\n\t[C]: in ?", msg);
+                1
+            }
+            minilua::RunOutcome::OutOfBudget { what } => {
+                eprintln!("lua: minilua budget exceeded ({})", what);
+                2
+            }
+        }
+    });
+    std::process::exit(code);
+}
